@@ -56,6 +56,16 @@ func (e *PSEnv) Resolve(v ssa.Value) ssa.Value {
 		case *ssa.ChangeType:
 			v = x.X
 			continue
+		case *ssa.UnOp:
+			// a load of a local / captured variable with exactly one reaching store is that
+			// stored value (stores made by callees through a captured reference between the
+			// store and the load are not seen: documented imprecision)
+			if x.Op == token.MUL {
+				if sts, zero, ok := ReachingStores(x); ok && !zero && len(sts) == 1 {
+					v = sts[0].Val
+					continue
+				}
+			}
 		}
 		return v
 	}
